@@ -53,6 +53,42 @@ def py_closed(e):
     return why
 
 
+def py_emitted(flat):
+    d = list(flat)
+    if "Eq" in d and "PartialEq" not in d:
+        d.append("PartialEq")
+    if "Ord" in d:
+        for x in ("PartialOrd", "Eq", "PartialEq"):
+            if x not in d:
+                d.append(x)
+    if "PartialOrd" in d and "PartialEq" not in d:
+        d.append("PartialEq")
+    for x in ("Debug", "Clone", "FieldInfo", "IncanClass"):
+        if x not in d:
+            d.append(x)
+    return [x for x in d if x != "Validate"]
+
+
+SERDE_PROBES = [
+    ("control_no_json", "def main() -> None:\n    println(1)\n", False),
+    ("call_stmt", "def main() -> None:\n    println(json_stringify(1))\n", True),
+    ("assignment", "def main() -> None:\n    s = json_stringify([1, 2])\n    println(s)\n", True),
+    ("return", "def f() -> str:\n    return json_stringify(true)\n\ndef main() -> None:\n    println(f())\n", True),
+    ("if_body", "def main() -> None:\n    if true:\n        println(json_stringify(1))\n", True),
+    ("elif_body", "def main() -> None:\n    x = 2\n    if x == 1:\n        println(1)\n    elif x == 2:\n        println(json_stringify(2))\n", True),
+    ("else_body", "def main() -> None:\n    x = 2\n    if x == 1:\n        println(1)\n    else:\n        println(json_stringify(2))\n", True),
+    ("while_body", "def main() -> None:\n    mut i = 0\n    while i < 1:\n        println(json_stringify(i))\n        i = i + 1\n", True),
+    ("for_body", "def main() -> None:\n    for i in range(2):\n        println(json_stringify(i))\n", True),
+    ("nested_call_arg", "def sh(x: str) -> str:\n    return x\n\ndef main() -> None:\n    println(sh(json_stringify(3)))\n", True),
+    ("model_method", "model M:\n    x: int\n\n    def js(self) -> str:\n        return json_stringify(self.x)\n\ndef main() -> None:\n    println(M(x=1).js())\n", True),
+    ("class_method", "class K:\n    x: int\n\n    def js(self) -> str:\n        return json_stringify(self.x)\n\ndef main() -> None:\n    println(K(x=1).js())\n", True),
+    ("derive_only_model", "@derive(Serialize)\nmodel M:\n    x: int\n\ndef main() -> None:\n    pass\n", True),
+    ("derive_only_class_deserialize", "@derive(Deserialize)\nclass K:\n    x: int\n\ndef main() -> None:\n    pass\n", True),
+    ("derive_second_decorator", "@derive(Eq)\n@derive(Hash, Serialize)\nmodel M:\n    x: int\n\ndef main() -> None:\n    pass\n", True),
+    ("derive_other_only", "@derive(Eq, Hash)\nmodel M:\n    x: int\n\ndef main() -> None:\n    pass\n", False),
+]
+
+
 def known_partialord(req):
     s = set(req)
     return "PartialOrd" in s and not (s & {"PartialEq", "Eq", "Ord"})
@@ -158,7 +194,8 @@ INT_POOL = [0, 1, -1, 2, 7, -7, 10, 42, 255, -256, 2**31 - 1, -2**31, 2**31, 2**
             I64_MAX, I64_MAX - 1, I64_MIN, I64_MIN + 1]
 KEY_POOL = ["a", "b", "k", "", "é", "key \"q\"", "😀", "z\\", "A", "0", "x\ty", "\u2028"]
 FIELD_NAMES = ["a", "b", "c", "x", "y", "n", "id", "name", "flag", "xs", "tags", "inner", "opt", "value", "count", "zeta", "alpha", "Mid", "k9", "_u", "data",
-               "left", "right", "note", "w_1"]
+               "left", "right", "note", "w_1",
+               "loop", "ref", "mod", "ab", "a_b", "aB", "x1", "x10", "x2", "Z", "zz", "use", "dyn", "idx_0"]
 
 
 class Decl:
@@ -168,6 +205,10 @@ class Decl:
         self.special = False
         self.with_method = False      # method-less classes get their to_json/from_json like models (repaired finding)
         self.chain = None             # class hierarchy: [(class name, own fields, has_method)] root first, the last is this class
+        self.pub = False              # `pub model`
+        self.pub_fields = set()       # fields declared `pub`
+        self.defaults = {}            # field name -> default value (constructor calls omit a field that has its default value)
+        self.noftext = False          # no hand-made from_json texts (very large values)
 
     def src(self):
         s = ""
@@ -186,10 +227,14 @@ class Decl:
             ext = " extends %s" % self.chain[-2][0] if len(self.chain) > 1 else ""
         if self.derives:
             s += "@derive(%s)\n" % ", ".join(self.derives)
-        s += "%s %s%s:\n" % (self.kind, self.name, ext)
+        s += "%s%s %s%s:\n" % ("pub " if self.pub else "", self.kind, self.name, ext)
         for f, t in own:
-            s += "    %s: %s\n" % (f, ity(t))
-        if (self.kind == "class" and self.with_method) or not own:
+            dflt = ""
+            if f in self.defaults:
+                dv = self.defaults[f]
+                dflt = " = " + (istr(dv) if t[0] == "str" else ("true" if dv else "false") if t[0] == "bool" else "[]" if t[0] == "list" else str(dv))
+            s += "    %s%s: %s%s\n" % ("pub " if f in self.pub_fields else "", f, ity(t), dflt)
+        if self.with_method or not own:
             s += "\n    def nm(self) -> int:\n        return %d\n" % len(self.fields)
         return s
 
@@ -335,7 +380,7 @@ def gen_value(rng, t, depth=3):
             return None
         return ("some", gen_value(rng, t[1], depth))
     d = t[1]
-    return ("S", d.name, [(f, gen_value(rng, ft, depth - 1)) for f, ft in d.fields])
+    return ("S", d.name, [(f, d.defaults[f] if (f in d.defaults and rng.random() < 0.5) else gen_value(rng, ft, depth - 1)) for f, ft in d.fields])
 
 
 def mutate_field(rng, d, v, idx):
@@ -393,10 +438,17 @@ def gen_decls(rng, n, tag):
         fnames = rng.sample(names, nf)
         d = Decl("%s%d" % (tag, i), kind, derives, [], caps)
         d.special = False
-        d.with_method = rng.random() < 0.5
+        d.with_method = rng.random() < 0.5 if kind == "class" else rng.random() < 0.3
+        d.pub = rng.random() < 0.3
         depth = 0 if i == 0 else rng.choice([1, 2, 2, 3])
         for fn in fnames:
             d.fields.append((fn, gen_type(rng, caps, decls, depth)))
+            if rng.random() < 0.25:
+                d.pub_fields.add(fn)
+        if i % 3 == 2:                  # field defaults (anywhere in the field list)
+            for fn, ft in d.fields:
+                if (ft[0] in ("int", "bool", "str", "list")) and rng.random() < 0.5:
+                    d.defaults[fn] = {"int": rng.choice([0, 7, -1]), "bool": rng.random() < 0.5, "str": rng.choice(["", "x", "d\"q"]), "list": []}[ft[0]]
         decls.append(d)
     return decls
 
@@ -469,6 +521,97 @@ def special_decls(tag):
     cj.special = True
     cj.values = [("S", cj.name, [("x", 1), ("t", None)]), ("S", cj.name, [("x", -5), ("t", ("some", "é\""))])]
     return [oo, ff, po, cj]
+
+
+LADDER = [0, 1, 2, 16, 17, 63, 64, 65, 255, 256, 1000]
+
+
+def scale_decls(rng, tag, quick):
+    """sizes, depths and widths pushed past plausible bounds"""
+    out = []
+    caps = caps_of(["Serialize", "Deserialize", "PartialEq"])
+    big = Decl(tag + "Big", "model", ["Serialize", "Deserialize", "PartialEq"],
+               [("xs", ("list", ("int",))), ("d", ("dict", ("int",))), ("s", ("str",)), ("ll", ("list", ("list", ("str",))))], caps)
+    big.special, big.noftext = True, True
+    sizes = [(0, 0, 0), (1, 1, 1), (2, 2, 2), (16, 17, 16), (17, 16, 17), (63, 64, 65), (65, 63, 64), (255, 256, 255), (1000, 256, 1000)]
+    if quick:
+        sizes = [sizes[0], sizes[1], sizes[3], sizes[5], sizes[8]]
+    for (a, b, c) in sizes:
+        keys = ["k%d%s" % (i, rng.choice(["", "\"", "\\", "é", "\n", "😀"])) for i in range(b)]
+        big.values.append(("S", big.name, [
+            ("xs", [gen_int(rng) for _ in range(a)]),
+            ("d", {"__dict__": [(kk, rng.randint(-5, 5)) for kk in keys]}),
+            ("s", "".join(rng.choice(["a", "\"", "\\", "\n", "é", "\x01", "😀", "/"]) for _ in range(c))),
+            ("ll", [[gen_str(rng) for _ in range(i % 3)] for i in range(min(a, 65))])]))
+    out.append(big)
+    # models nested 8 deep, each level also holding the previous one inside Option and List
+    ocaps = caps_of(["Serialize", "Deserialize", "Eq", "Ord", "Hash"])
+    prev = None
+    chain = []
+    for lvl in range(8):
+        fs = [("v", ("int",))]
+        if prev is not None:
+            fs = [("inner", ("struct", prev)), ("v", ("int",)), ("o", ("opt", ("struct", prev))), ("l", ("list", ("struct", prev)))]
+        dd = Decl("%sDeep%d" % (tag, lvl), "model", ["Serialize", "Deserialize", "Eq", "Ord", "Hash"], fs, ocaps)
+        dd.special = True
+        dd.noftext = lvl not in (0, 7)
+        chain.append(dd)
+        prev = dd
+    for dd in chain:
+        t = ("struct", dd)
+        n = 3 if dd is chain[-1] else 2
+        v0 = gen_deep(rng, t, 0)
+        dd.values = [v0, json_copy(v0)] + [gen_deep(rng, t, k + 1) for k in range(n - 1)]
+    out += chain
+    nest = Decl(tag + "Nest", "model", ["Serialize", "Deserialize", "PartialEq"],
+                [("l4", ("list", ("list", ("list", ("list", ("int",)))))), ("ol", ("opt", ("list", ("opt", ("list", ("opt", ("str",))))))),
+                 ("dd", ("dict", ("dict", ("list", ("opt", ("int",))))))], caps)
+    nest.special = True
+    nest.values = [gen_value(rng, ("struct", nest), 6) for _ in range(4)]
+    nest.values.append(("S", nest.name, [("l4", [[[[]]], [], [[], [[1, -1]]]]), ("ol", ("some", [None, ("some", [None, ("some", "")])])),
+                                          ("dd", {"__dict__": [("", {"__dict__": []}), ("a\"", {"__dict__": [("\\", [None, ("some", 0)])]})]})]))
+    out.append(nest)
+    # 33 fields (more than any tuple/array impl limit of std)
+    wf = []
+    for i in range(33):
+        wf.append(("f%02d" % i if i % 5 else "g%d" % i, [("int",), ("str",), ("bool",)][i % 3]))
+    wide = Decl(tag + "Wide", "class", ["Serialize", "Deserialize", "Eq", "Ord", "Hash"], wf, ocaps)
+    wide.special, wide.noftext = True, False
+    v0 = gen_value(rng, ("struct", wide))
+    wide.values = [v0, json_copy(v0)] + [mutate_field(rng, wide, v0, i) for i in (0, 16, 31, 32)]
+    out.append(wide)
+    return out
+
+
+def gen_deep(rng, t, salt):
+    """a value of a deeply nested model: one inner value per level (no fan-out explosion)"""
+    d = t[1]
+    fs = []
+    for f, ft in d.fields:
+        if ft[0] == "int":
+            fs.append((f, rng.choice([0, 1, -1, salt])))
+        elif ft[0] == "struct":
+            fs.append((f, gen_deep(rng, ft, salt)))
+        elif ft[0] == "opt":
+            fs.append((f, None if rng.random() < 0.5 else ("some", gen_deep(rng, ft[1], salt))))
+        else:
+            fs.append((f, [gen_deep(rng, ft[1], salt)] if rng.random() < 0.4 else []))
+    return ("S", d.name, fs)
+
+
+# plain (non-model) values handed to json_stringify
+def plain_values(rng):
+    vals = [(("int",), 0), (("int",), I64_MIN), (("int",), I64_MAX), (("bool",), True), (("bool",), False),
+            (("str",), ""), (("str",), "a\"b\\c\n\x00é😀\u2028"), (("opt", ("int",)), ("some", -3)),
+            (("opt", ("list", ("str",))), ("some", ["", "x"])), (("list", ("list", ("int",))), [[1], [], [2, 3]]),
+            (("list", ("opt", ("bool",))), [None, ("some", True)])]
+    for n in LADDER:
+        vals.append((("list", ("int",)), [rng.randint(-9, 9) for _ in range(n)]))
+    for n in (0, 1, 2, 17, 64, 65):
+        vals.append((("dict", ("int",)), {"__dict__": [("k%d%s" % (i, "\"" if i % 7 == 3 else ""), i) for i in range(n)]}))
+    vals.append((("dict", ("list", ("str",))), {"__dict__": [("a", []), ("", ["\\"])]}))
+    vals.append((("list", ("str",)), [chr(c) for c in (0, 8, 9, 10, 12, 13, 31, 32, 34, 92, 127, 128, 0xd7ff, 0xe000, 0xffff, 0x10000, 0x10ffff)]))
+    return vals
 
 
 # ---------------------------------------------------------------- Python semantics (the oracle)
@@ -638,10 +781,12 @@ class Prog:
             self.helpers.append(body)
             return name + "()"
         d = t[1]
-        return "%s(%s)" % (d.name, ", ".join("%s=%s" % (f, self.expr(ft, x[1])) for (f, ft), x in zip(d.fields, v[2])))
+        args = ["%s=%s" % (f, self.expr(ft, x[1])) for (f, ft), x in zip(d.fields, v[2])
+                if not (f in d.defaults and d.defaults[f] == x[1])]
+        return "%s(%s)" % (d.name, ", ".join(args))
 
 
-def build_program(decls, ftexts):
+def build_program(decls, ftexts, plain=()):
     """returns (source, plan). plan: list of records (tag, decl, ids..., nlines) in print order.
     Values are reached through val_<decl>(i) so that main stays small (loops instead of thousands of calls)."""
     P = Prog()
@@ -661,9 +806,16 @@ def build_program(decls, ftexts):
             f += "    if i == %d:\n        return mk_%s_%d()\n" % (j, d.name, j)
         f += "    return mk_%s_%d()\n" % (d.name, len(d.values) - 1)
         mk.append(f)
+    xv = []
+    for k, (pt, pv) in enumerate(plain):
+        xv.append("def xv_%d() -> %s:\n    return %s\n" % (k, ity(pt), P.expr(pt, pv)))
     out.extend(P.helpers)
     out.extend(mk)
+    out.extend(xv)
     main = []
+    for k in range(len(plain)):
+        plan.append(("X", None, k, 1))
+        main.append("println(\"#X %d 1\")\nprintln(json_stringify(xv_%d()))" % (k, k))
     for d in decls:
         c = d.caps
         ser, de, eq, od = "Serialize" in c, "Deserialize" in c, "PartialEq" in c, "PartialOrd" in c
@@ -686,6 +838,10 @@ def build_program(decls, ftexts):
                 f += "    println(bb(a < b))\n    println(bb(a <= b))\n    println(bb(a > b))\n    println(bb(a >= b))\n"
             out.append(f)
         out.append("def id_%s(v: %s) -> %s:\n    return v\n" % (nm, nm, nm))
+        # reflection: __class_name__() and __fields__() (incan_derive IncanClass)
+        out.append("def mf_%s(v: %s) -> None:\n    println(v.__class_name__())\n    for f in v.__fields__():\n        println(f)\n" % (nm, nm))
+        plan.append(("M", d, 1 + len(d.fields)))
+        main.append("println(\"#M %s %d\")\nmf_%s(mk_%s_0())" % (nm, 1 + len(d.fields), nm, nm))
         if ser:
             body = ["for i in range(%d):" % nv,
                     "    println(f\"#J %s {i} 1\")" % nm, "    println(json_stringify(val_%s(i)))" % nm,
@@ -760,38 +916,62 @@ def jtext_ascii(j):
     return json.dumps(j)
 
 
+class FT(str):
+    """a hand-made from_json text with the category that produced it"""
+    def __new__(cls, text, cat):
+        o = str.__new__(cls, text)
+        o.cat = cat
+        return o
+
+
+BAD_SCALARS = ["1.0", "1e2", "-0", "9223372036854775808", "-9223372036854775809", "01", "true", "null", "\"1\"", "[]", "{}", "+1", ".5", "1.",
+               "\"a\\qb\"", "\"\\ud800\"", "\"\\udc00\\ud800\"", "\"\\ud83d\\ude00\"", "\"tab\there\"", "tru", "nul",
+               "9223372036854775807", "-9223372036854775808", "0", "-1", "1E5", "1e+", "-", "\"\\u00e9\\/\\b\\f\\n\\r\\t\\\"\\\\\"",
+               "\"\\uD83D\\uDE00x\"", "\"\\ud83dx\"", "\"\\u12\"", "1.5E-3", "-1.25", "00", "-01", "1e", "2.e1", "\"\u0001\"", "12345678901234567890123"]
+_bad_counter = [0]
+
+
 def gen_ftexts(rng, d, quick):
     t = ("struct", d)
     texts = []
     vals = d.values[:2] if quick else d.values[:4]
+    strf = [i for i, (f, ft) in enumerate(d.fields) if ft[0] == "str"]
+    intf = [i for i, (f, ft) in enumerate(d.fields) if ft[0] == "int"]
+    optf = [i for i, (f, ft) in enumerate(d.fields) if ft[0] == "opt"]
+    dictf = [i for i, (f, ft) in enumerate(d.fields) if ft[0] == "dict"]
     for v in vals:
         j = pyjson(t, v)
-        texts.append(jtext_ws(rng, j))
-        texts.append(" " + jtext_ascii(j) + "\n")
-        texts.append(dumps(Obj(list(reversed(j)))))
+        texts.append(FT(jtext_ws(rng, j), "whitespace"))
+        texts.append(FT(" " + jtext_ascii(j) + "\n", "ascii_escapes"))
+        texts.append(FT(dumps(Obj(list(reversed(j)))), "reversed_fields"))
         extra = rng.choice(["1.5e3", "{\"a\":[null,true]}", "\"x\"", "[]", "-0", "null", "12345678901234567890123"])
         k = rng.randint(0, len(j))
-        texts.append(dumps(Obj(j[:k] + [("zz_unknown", RawJ(extra))] + j[k:])))
+        texts.append(FT(dumps(Obj(j[:k] + [("zz_unknown", RawJ(extra))] + j[k:])), "unknown_field"))
+        k = rng.choice(optf) if (optf and rng.random() < 0.6) else rng.randrange(len(j))
+        texts.append(FT(dumps(Obj(j[:k] + j[k + 1:])), "missing_option_field" if k in optf else "missing_required_field"))
         k = rng.randrange(len(j))
-        texts.append(dumps(Obj(j[:k] + j[k + 1:])))
-        k = rng.randrange(len(j))
-        texts.append(dumps(Obj(j + [j[k]])))
-        texts.append(dumps([x for _, x in j]))
-        texts.append(dumps([x for _, x in j] + [1]))
-        texts.append(dumps([x for _, x in j][:-1]))
+        texts.append(FT(dumps(Obj(j + [j[k]])), "duplicate_field"))
+        texts.append(FT(dumps([x for _, x in j]), "array_form"))
+        texts.append(FT(dumps([x for _, x in j] + [1]), "array_too_long"))
+        texts.append(FT(dumps([x for _, x in j][:-1]), "array_too_short"))
         base = dumps(j)
-        texts.append(base[:rng.randint(0, len(base) - 1)])
-        texts.append(base + rng.choice(["x", "}", ",", " 1", "\n\n"]))
-        # a wrong-typed scalar somewhere
-        k = rng.randrange(len(j))
-        bad = rng.choice(["1.0", "1e2", "-0", "9223372036854775808", "-9223372036854775809", "01", "true", "null", "\"1\"", "[]", "{}", "+1", ".5", "1.", "\"a\\qb\"", "\"\\ud800\"", "\"\\udc00\\ud800\"", "\"\\ud83d\\ude00\"", "\"tab\there\"", "tru", "nul", "9223372036854775807", "-9223372036854775808", "0", "-1", "1E5", "1e+", "-"])
-        texts.append(dumps(Obj(j[:k] + [(j[k][0], RawJ(bad))] + j[k + 1:])))
-    texts.append("")
-    texts.append("null")
-    texts.append("{}")
-    texts.append("[]")
-    texts.append("{,}")
-    texts.append("{\"a\":1,}")
+        texts.append(FT(base[:rng.randint(0, len(base) - 1)], "truncated"))
+        texts.append(FT(base + rng.choice(["x", "}", ",", " 1", "\n\n"]), "trailing"))
+        # wrong or unusual scalars, cycling through the whole list across the run; string forms go to a str field and
+        # number forms to an int field when the declaration has one, so that the value reaches the typed decoder
+        for _ in range(3):
+            bad = BAD_SCALARS[_bad_counter[0] % len(BAD_SCALARS)]
+            _bad_counter[0] += 1
+            pool = strf if (bad.startswith("\"") and strf) else intf if (bad[0] in "-+.0123456789" and intf) else list(range(len(j)))
+            k = rng.choice(pool)
+            texts.append(FT(dumps(Obj(j[:k] + [(j[k][0], RawJ(bad))] + j[k + 1:])), "scalar:" + bad))
+        for k in dictf:                       # the same key twice inside a Dict[str,_] member: HashMap::insert overwrites
+            ents = j[k][1]
+            if isinstance(ents, Obj) and len(ents) >= 1:
+                dup = Obj(list(ents) + [(ents[0][0], ents[-1][1])])
+                texts.append(FT(dumps(Obj(j[:k] + [(j[k][0], dup)] + j[k + 1:])), "dict_duplicate_key"))
+    for x in ("", "null", "{}", "[]", "{,}", "{\"a\":1,}", " \t\r\n", "[1,]", "{\"a\" 1}", "{\"a\":}", "{1:2}"):
+        texts.append(FT(x, "malformed"))
     return texts
 
 
@@ -919,7 +1099,7 @@ def compile_and_run(binary, scratch, name, src):
     return "ok", p.stdout.decode("utf-8", "surrogateescape")
 
 
-HEADER = re.compile(r"^#([JTRFPHC]) ")
+HEADER = re.compile(r"^#([JTRFPHCMX]) ")
 
 
 def emitted_fields(binary, scratch, name, src):
@@ -970,6 +1150,9 @@ def check_field_order(chk, binary, scratch, name, decls, src, res, model_ok):
         res["dist"]["fields"] = res["dist"].get("fields", 0) + 1
         if d.chain:
             res["dist"]["hierarchy_depth_%d" % len(d.chain)] = res["dist"].get("hierarchy_depth_%d" % len(d.chain), 0) + 1
+            arm(res, "class_fields:" + ("no_parent" if len(d.chain) == 1 else "parent_is_root" if len(d.chain) == 2 else "collect_inherited_fields_recursive"))
+            if any(not cf for _, cf, _ in d.chain):
+                arm(res, "class_fields:level_without_fields")
         case = {"batch": name, "record": "fields %s" % d.name, "decl": d.src(), "impl": got}
         if got != want:
             case["why"] = ("emitted struct field order %s differs from the declaration order %s (ancestors' fields root first, own fields "
@@ -1000,13 +1183,81 @@ def parse_output(stdout, plan):
     return [g[1:] for g in groups]
 
 
+def arm(res, name, n=1):
+    """per-arm hit counts of the hand model (which inputs of the correspondence stream reach which arm)"""
+    h = res.setdefault("arms", {})
+    h[name] = h.get(name, 0) + n
+
+
+def arms_value(res, t, v):
+    """which arms of the printer / derived impls a value reaches"""
+    k = t[0]
+    if k == "int":
+        arm(res, "print_int:" + ("negative" if v < 0 else "zero" if v == 0 else "positive"))
+        if v in (I64_MIN, I64_MAX):
+            arm(res, "print_int:i64_limit")
+    elif k == "bool":
+        arm(res, "print_json:bool_" + str(v).lower())
+    elif k == "str":
+        if not v:
+            arm(res, "print_str:empty")
+        for ch in v:
+            c = ord(ch)
+            arm(res, "esc_char:" + ({34: "quote", 92: "backslash", 8: "b", 12: "f", 10: "n", 13: "r", 9: "t"}.get(c) or
+                                    ("u00XX" if c < 32 else "raw_ascii" if c < 128 else "raw_bmp" if c < 0x10000 else "raw_astral")))
+    elif k == "list":
+        arm(res, "print_json:array_" + ("empty" if not v else "one" if len(v) == 1 else "many"))
+        for x in v:
+            arms_value(res, t[1], x)
+    elif k == "dict":
+        n = len(v["__dict__"])
+        arm(res, "print_json:dict_" + ("empty" if not n else "one" if n == 1 else "many"))
+        for q, x in v["__dict__"]:
+            arms_value(res, ("str",), q)
+            arms_value(res, t[1], x)
+    elif k == "opt":
+        arm(res, "encode:" + ("none" if v is None else "some"))
+        if v is not None:
+            arms_value(res, t[1], v[1])
+    elif k == "struct":
+        arm(res, "print_json:object_" + ("one" if len(v[2]) == 1 else "many"))
+        for (f, ft), x in zip(t[1].fields, v[2]):
+            arms_value(res, ft, x)
+
+
+ESC_RE = re.compile(r'\\(u[dD][89abAB][0-9a-fA-F]{2}\\u[dD][c-fC-F][0-9a-fA-F]{2}|u[0-9a-fA-F]{4}|.)', re.S)
+
+
+def arms_text(res, text, ok):
+    """which arms of the JSON reader a from_json text reaches (judged from the text)"""
+    for m in ESC_RE.finditer(text):
+        e = m.group(1)
+        if len(e) > 6:
+            arm(res, "parse_str_body:surrogate_pair")
+        elif e[0] == "u" and len(e) == 5:
+            u = int(e[1:], 16)
+            arm(res, "parse_str_body:" + ("lone_surrogate" if 0xd800 <= u <= 0xdfff else "u_bmp"))
+        elif e in "\"\\/bfnrt":
+            arm(res, "parse_str_body:esc_" + {"\"": "quote", "\\": "backslash", "/": "slash"}.get(e, e))
+        else:
+            arm(res, "parse_str_body:bad_escape")
+    if re.search(r"[\x00-\x1f]", text.replace("\n", "").replace("\t", "").replace("\r", "")) or '"tab\there"' in text:
+        arm(res, "parse_str_body:raw_control")
+    if re.search(r"[ \t\r\n]", text):
+        arm(res, "skip_ws:whitespace")
+    for lit, nm in (("null", "null"), ("true", "true"), ("false", "false"), ("[]", "array_empty"), ("{}", "object_empty"), ("[", "array"), ("{", "object")):
+        if lit in text:
+            arm(res, "parse_value:" + nm)
+    arm(res, "from_json:" + ("ok" if ok else "err"))
+
+
 def flags(xs):
     return [1 if x else 0 for x in xs]
 
 
-def run_batch(chk, binary, scratch, name, decls, ftexts, res, model_ok):
+def run_batch(chk, binary, scratch, name, decls, ftexts, res, model_ok, plain=()):
     """one program: build, run, compare with model and oracle. Returns list of failure dicts."""
-    src, plan = build_program(decls, ftexts)
+    src, plan = build_program(decls, ftexts, plain)
     ffails, fcorr = check_field_order(chk, binary, scratch, name, decls, src, res, model_ok)
     t3 = time.time()
     status, out = compile_and_run(binary, scratch, name, src)
@@ -1025,10 +1276,21 @@ def run_batch(chk, binary, scratch, name, decls, ftexts, res, model_ok):
     jtexts = {}
     for k, (rec, lines) in enumerate(zip(plan, recs)):
         tag, d = rec[0], rec[1]
+        if len(lines) != rec[-1]:
+            continue
+        if tag == "X":
+            pt, pv = plain[rec[2]]
+            try:
+                pv2 = reorder(pt, pv, loads(lines[0]))
+            except Exception:
+                pv2 = pv
+            terms.append("to_json %s" % gval(pt, pv2))
+            idx.append(k)
+            continue
+        if tag == "M":
+            continue
         t = ("struct", d)
         if has_float(t):
-            continue
-        if len(lines) != rec[-1]:
             continue
         if tag in ("J", "T"):
             v = d.values[rec[2]]
@@ -1068,11 +1330,49 @@ def run_batch(chk, binary, scratch, name, decls, ftexts, res, model_ok):
     n_model = 0
     for k, (rec, lines) in enumerate(zip(plan, recs)):
         tag, d = rec[0], rec[1]
+        if tag == "X":
+            pt, pv = plain[rec[2]]
+            case = {"batch": name, "record": "X %d" % rec[2], "type": ity(pt), "value": repr(pv)[:400], "impl": [x[:400] for x in lines]}
+            why = cwhy = None
+            mres = model.get(k)
+            if len(lines) != 1:
+                why = "json_stringify printed %d lines" % len(lines)
+            else:
+                try:
+                    parsed = loads(lines[0])
+                    want = dumps(pyjson(pt, reorder(pt, pv, parsed)))
+                    if lines[0] != want:
+                        why = "json_stringify(%s value) differs from the documented mapping: expected %s" % (ity(pt), want[:300])
+                except Exception as ex:
+                    why = "output of json_stringify is not JSON (%s)" % ex
+                if mres is not None:
+                    n_model += 1
+                    if mres != cps(lines[0]):
+                        cwhy = {"model": "".join(map(chr, mres))[:300], "impl": lines[0][:300]}
+            chk.count_case((name, case["record"], tuple(lines)))
+            res["dist"]["X"] = res["dist"].get("X", 0) + 1
+            arm(res, "json_stringify(plain %s)" % pt[0])
+            if why:
+                case["why"] = why
+                fails.append(case)
+            if cwhy:
+                c2 = dict(case)
+                c2["mismatch"] = cwhy
+                corr.append(c2)
+            continue
         t = ("struct", d)
         nm = d.name
         why = None          # oracle verdict
         cwhy = None         # correspondence verdict
         case = {"batch": name, "record": "%s %s %s" % (tag, nm, " ".join(str(x) for x in rec[2:-1])), "decl": d.src(), "impl": lines}
+        if tag == "M":
+            want = [nm] + [f for f, _ in d.fields]
+            chk.count_case((name, case["record"], tuple(lines)))
+            res["dist"]["M"] = res["dist"].get("M", 0) + 1
+            if lines != want:
+                case["why"] = "__class_name__() / __fields__() give %s, the declaration says %s" % (lines, want)
+                fails.append(case)
+            continue
         nontrivial = True
         mres = model.get(k)
         if mres is not None:
@@ -1080,6 +1380,8 @@ def run_batch(chk, binary, scratch, name, decls, ftexts, res, model_ok):
         if len(lines) != rec[-1]:
             why = "the record has %d output lines, %d expected (a JSON text must be one line; flags one per line)" % (len(lines), rec[-1])
             tag = "?"
+        if tag == "J":
+            arms_value(res, t, d.values[rec[2]])
         if tag in ("J", "T"):
             v = d.values[rec[2]]
             case["value"] = repr(v)
@@ -1132,6 +1434,11 @@ def run_batch(chk, binary, scratch, name, decls, ftexts, res, model_ok):
             case["text"] = text
             st, payload = lines
             nontrivial = (st == "ok")
+            arms_text(res, text, st == "ok")
+            cat = getattr(text, "cat", "?")
+            arm(res, "decode:%s:%s" % (cat if not cat.startswith("scalar:") else "scalar", st))
+            if cat.startswith("scalar:"):
+                arm(res, "parse_number/scalar %s:%s" % (cat[7:], st))
             # oracle: if Python reads the text as the JSON of some value of the type, the result must be Ok
             # and re-serialise to the same document; if Python rejects the text, it must be Err.
             try:
@@ -1157,6 +1464,8 @@ def run_batch(chk, binary, scratch, name, decls, ftexts, res, model_ok):
             case["a"], case["b"] = repr(a), repr(b)
             got = [int(x) for x in lines]
             e = pyeq(t, a, b)
+            first = next((ft[0] for (f, ft), x, y in zip(d.fields, a[2], b[2]) if not pyeq(ft, x[1], y[1])), "none")
+            arm(res, "veq/vcmp:first_differing_field_is_" + first)
             want = [int(e), int(not e)]
             if len(got) == 6:
                 ka, kb = pykey(t, a), pykey(t, b)
@@ -1231,7 +1540,14 @@ def table_row_full(binary, kind, ds):
 
 
 def load_findings(chk):
-    return None
+    # TEMPORARY until the lead merges build/kf-C20.json: findings found in the generator audit (derive-duplicate,
+    # hierarchy-duplicate-field, cyclic-extends-crash) that known_findings.json does not list yet
+    p = os.path.join(vlib.VERIF, "build", "kf-C20.json")
+    if os.path.exists(p):
+        have = {f["id"] for f in chk.findings}
+        for f in json.load(open(p)):
+            if f["id"] not in have:
+                chk.findings.append(f)
 
 
 def is_known(chk, fid):
@@ -1308,6 +1624,95 @@ def run(chk):
                 case["why"] = "; ".join(why)
                 fails.append(case)
     res["dist"]["table"] = 2 * len(subsets)
+    # arms of extract_derives / lower_derives / emit_struct reached by the exhaustive table
+    for req in subsets:
+        q = set(req)
+        arm(res, "extract_derives:Eq_pulls_PartialEq" if ("Eq" in q and "PartialEq" not in q) else "extract_derives:Eq_block_idle")
+        if "Ord" in q:
+            state = set(q) | ({"PartialEq"} if "Eq" in q else set())
+            for x in ("PartialOrd", "Eq", "PartialEq"):
+                arm(res, "extract_derives:Ord_%s_%s" % ("pulls" if x not in state else "finds", x))
+                state.add(x)
+        else:
+            arm(res, "extract_derives:no_Ord")
+        arm(res, "extract_derives:PartialOrd_pulls_PartialEq" if ("PartialOrd" in q and not q & {"PartialEq", "Eq", "Ord"}) else "extract_derives:PartialOrd_block_idle")
+        for x in ("Debug", "Clone"):
+            arm(res, "lower_derives:%s_%s" % (x, "already_requested" if x in q else "added"))
+        arm(res, "emit_struct:Validate_" + ("filtered" if "Validate" in q else "absent"))
+    # ---- further request shapes: shuffled order, several @derive decorators, repeated names, unknown names
+    nx = 150 if chk.tier == "quick" else 900
+    xl, xreq = [], []
+    for i in range(nx):
+        req = chk.rng.sample(DECORATORS, chk.rng.randint(1, 7))
+        groups = [req]
+        if i % 3 == 1 and len(req) > 1:
+            cut = chk.rng.randint(1, len(req) - 1)
+            groups = [req[:cut], req[cut:]]
+        if i % 3 == 2:
+            dup = chk.rng.choice(req)
+            if chk.rng.random() < 0.5 or len(req) < 2:
+                groups = [req + [dup]]
+            else:
+                groups = [req, [dup]]
+        kind = "model" if i % 2 else "class"
+        xl.append("%s %s" % (kind, "+".join(",".join(g) for g in groups)))
+        xreq.append((kind, groups))
+    for bad in ("serialize", "Foo", "partialeq", "PartialEq,Equal"):
+        xl.append("model " + bad)
+        xreq.append(("model", None))
+    xout = [o for o in vlib.run_harness(binary, ["run", "c20", "table"], "\n".join(xl) + "\n").split("\n") if o]
+    if len(xout) != len(xl):
+        raise vlib.Infra("vharness c20 table returned %d lines for %d extra rows" % (len(xout), len(xl)))
+    xterms, xrows = [], []
+    dup_hits = 0
+    for line, (kind, groups), row in zip(xl, xreq, xout):
+        chk.count_case(("table+", line, row), nontrivial=not row.startswith("ERR"))
+        res["dist"]["table_extra"] = res["dist"].get("table_extra", 0) + 1
+        case = {"record": "table+ " + line, "decl": "".join("@derive(%s)\n" % ", ".join(g) for g in (groups or [[line.split(" ")[1]]])) + "%s M:\n    x: int\n" % kind, "emitted": row}
+        if groups is None:
+            arm(res, "derives.rs from_str:unknown_name")
+            if not (row.startswith("ERR typecheck") and "Unknown derive" in row):
+                case["why"] = "a name outside the derive vocabulary must be rejected with `Unknown derive`"
+                fails.append(case)
+            continue
+        flat = [x for g in groups for x in g]
+        arm(res, "request_shape:%s%s" % ("two_decorators" if len(groups) > 1 else "one_decorator", "_repeated_name" if len(set(flat)) < len(flat) else ""))
+        if row.startswith("ERR"):
+            case["why"] = "the compiler pipeline rejects a declaration deriving only vocabulary names: " + row
+            fails.append(case)
+            continue
+        e = [x for x in row.split("|")[0].split(",") if x]
+        why = py_closed(e)
+        if set(e) != set(py_emitted(flat)):
+            why.append("emitted derive set differs from request + prerequisites + defaults: expected %s" % sorted(set(py_emitted(flat))))
+        if len(set(e)) < len(e):
+            if len(set(flat)) < len(flat):
+                dup_hits += 1
+                if not is_known(chk, "derive-duplicate"):
+                    why.append("a derive name is emitted twice (rustc: conflicting implementations) (class derive-duplicate, not listed as known)")
+            else:
+                why.append("a derive name is emitted twice although requested once")
+        if "Display" in e and not is_known(chk, "derive-display"):
+            why.append("`Display` is not a derive macro in scope of the generated file")
+        if why:
+            case["why"] = "; ".join(why)
+            fails.append(case)
+        xterms.append("map dcode (emitted %s)" % glist(["D" + x for x in flat]))
+        xrows.append((case, e))
+    known_rows["derive-duplicate"] = dup_hits
+    # ---- serde detection (scanners.rs): derive on a model/class, or json_stringify anywhere the emitter emits it
+    for pname, psrc, want in SERDE_PROBES:
+        sp = os.path.join(vlib.BUILD, "c20-serde-probe-%d.incn" % os.getpid())
+        open(sp, "w").write(psrc)
+        out = vlib.run_harness(binary, ["run", "c20", "gen"], "%s\t%s\t%s\n" % (sp, sp + ".proj", "probe")).strip()
+        shutil.rmtree(sp + ".proj", ignore_errors=True)
+        os.remove(sp)
+        chk.count_case(("serde", pname, out))
+        res["dist"]["serde_probe"] = res["dist"].get("serde_probe", 0) + 1
+        arm(res, "detect_serde_usage:%s" % ("true" if want else "false"))
+        if out != "OK serde=%s" % ("true" if want else "false"):
+            fails.append({"record": "serde " + pname, "decl": psrc, "impl": out,
+                          "why": "serde support detected = %s, the program %s json_stringify / serde derives" % (out, "uses" if want else "does not use")})
 
     # ---- proofs (GenTable.v is part of the development)
     vlib.log("[c20] table stage %.1fs" % (time.time() - t0))
@@ -1322,6 +1727,14 @@ def run(chk):
     kok, klog = vlib.coq_build(["C20/PropsKnown.vo"])
     chk.coverage["known_witness_theorems_hold"] = bool(kok)
     vlib.log("[c20] proof stage %.1fs" % (time.time() - t1))
+    if model_ok and xterms:
+        req0 = "From Verif Require Import Base.I64 C20.Model.\nFrom Coq Require Import ZArith List.\nImport ListNotations.\nOpen Scope Z_scope."
+        xvals = vlib.coq_eval(req0, "list Z", "fun x => x", xterms, shard=64, tag="c20x", extra_defs=EVAL_DEFS)
+        for (case, e), mv in zip(xrows, xvals):
+            if sorted(mv) != sorted(DCODE.get(x, 99) for x in e):
+                c2 = dict(case)
+                c2["mismatch"] = {"model": mv, "impl": e}
+                corr.append(c2)
 
     # ---- tie (b) + oracle: generated programs
     scratch = scratch_dir(chk)
@@ -1345,9 +1758,14 @@ def run(chk):
                 h.values = hierarchy_values(chk.rng, h)[:10]
                 decls.append(h)
             decls += special_decls(tag)
-            ftexts = {d.name: gen_ftexts(chk.rng, d, chk.tier == "quick") for d in decls if "Deserialize" in d.caps and not has_float(("struct", d))}
+            plain = ()
+            if bi == 0:
+                decls += scale_decls(chk.rng, tag, chk.tier == "quick")
+                plain = plain_values(chk.rng)
+            ftexts = {d.name: gen_ftexts(chk.rng, d, chk.tier == "quick") for d in decls
+                      if "Deserialize" in d.caps and not has_float(("struct", d)) and not d.noftext}
             name = "c20_%s%s" % (tag.lower(), suffix)
-            f, c, nm = run_batch(chk, binary, scratch, name, decls, ftexts, res, model_ok)
+            f, c, nm = run_batch(chk, binary, scratch, name, decls, ftexts, res, model_ok, plain)
             fails += f
             corr += c
             n_model += nm
@@ -1394,6 +1812,25 @@ def run(chk):
                         if st != "rustc":
                             continue
                     chk.known(fid, "%s: %s" % (fid, f["summary"]))
+            elif fid == "derive-duplicate":
+                row = table_row(binary, "model", ["Eq", "Eq"])
+                e = row.split(",")
+                if len(set(e)) < len(e):
+                    chk.known(fid, "%s: %s" % (fid, f["summary"]))
+            elif fid == "hierarchy-duplicate-field":
+                em, raw = emitted_fields(binary, scratch, "w_dupfield", f["witness"])
+                if em and len(set(em.get("B", []))) < len(em.get("B", [])):
+                    chk.known(fid, "%s: %s" % (fid, f["summary"]))
+            elif fid == "cyclic-extends-crash":
+                sp = os.path.join(scratch, "w_cyclic.incn")
+                open(sp, "w").write(f["witness"])
+                try:
+                    p = subprocess.run([binary, "run", "c20", "fields"], input=sp + "\n", capture_output=True, text=True, timeout=120)
+                    crashed = p.returncode != 0 or "overflowed its stack" in p.stderr
+                except subprocess.TimeoutExpired:
+                    crashed = True
+                if crashed:
+                    chk.known(fid, "%s: %s" % (fid, f["summary"]))
             elif fid == "nested-option-roundtrip":
                 if res["known_hits"].get(fid):
                     chk.known(fid, "%s: %s" % (fid, f["summary"]))
@@ -1421,6 +1858,9 @@ def run(chk):
     chk.coverage["correspondence_mismatches"] = len(corr)
     chk.coverage["known_class_hits"] = {k: (v if isinstance(v, int) else len(v)) for k, v in list(res["known_hits"].items()) + list(known_rows.items())}
     chk.coverage["repaired_class_rows_checked"] = class_hits
+    hits = dict(sorted(res.get("arms", {}).items()))
+    hits["class_fields:undeclared_parent (unreachable: the type checker rejects `extends` of an unknown class)"] = 0
+    chk.coverage["model_arm_hits"] = hits
 
     fails.sort(key=lambda f: (0, len(f["record"])) if f.get("record", "").startswith(("table", "jsonmethods", "fields")) else (1, 0))
     picked, per_kind = [], {}
